@@ -119,7 +119,12 @@ func (fx *FnCtx) lockOrder(st *State, cls string) {
 	}
 }
 
-func (fx *FnCtx) entryLockArr(key string) string { return zeroLocks }
+func (fx *FnCtx) entryLockArr(key string) string {
+	if a, ok := fx.entryLocks[key]; ok {
+		return a
+	}
+	return zeroLocks
+}
 
 // declared lock order (lower level acquired first); see DESIGN.md C18
 var lockLevels = map[string]int{
@@ -726,6 +731,7 @@ func (fx *FnCtx) lookup(st *State, x *ssa.Lookup) {
 		return
 	}
 	m := st.val(x.X)
+	fx.guardedMapOp(st, m, false)
 	k := fx.mapKeyTerm(st, st.val(x.Index))
 	has := fx.mapHas(st, mt, m.S, k)
 	okc := fx.fresh("mapok", "Bool")
@@ -739,7 +745,37 @@ func (fx *FnCtx) lookup(st *State, x *ssa.Lookup) {
 	}
 }
 
+// guardedAccess: the declared lock discipline (`guarded F by L`): an access to field F of object o, or to the map
+// stored in it, needs o.L held (for writing: exclusively) unless o was allocated by this very execution and is not yet
+// shared. Obligation kind "lock" (C18).
+func (fx *FnCtx) guardedAccess(st *State, class, owner string, write bool) {
+	lock, ok := fx.eng.CS.Guarded[class]
+	if !ok || owner == "" {
+		return
+	}
+	w := tSel(st.heapGet("L|"+lock, "(Array Int Int)"), owner)
+	held := tCmp(">", w, "0")
+	if !write {
+		r := tSel(st.heapGet("R|"+lock, "(Array Int Int)"), owner)
+		held = tOr(held, tCmp(">", r, "0"))
+	}
+	goal := tOr(held, tCmp(">=", owner, st.top0))
+	what := "read"
+	if write {
+		what = "write"
+	}
+	fx.oblige(st, fx.oname("lock", "guarded "+what+" "+class), "lock", &Clause{Props: []string{"C18"}, Label: "guarded-by", Src: class + " guarded by " + lock}, goal)
+}
+
+func (fx *FnCtx) guardedMapOp(st *State, m *Val, write bool) {
+	if m == nil || m.Owner == "" || !strings.HasPrefix(m.Org, "field ") {
+		return
+	}
+	fx.guardedAccess(st, strings.TrimPrefix(m.Org, "field "), m.Owner, write)
+}
+
 func (fx *FnCtx) mapUpdate(st *State, m *Val, mt *types.Map, kv, v *Val) {
+	fx.guardedMapOp(st, m, true)
 	fx.oblige(st, fx.oname("safety", "nil-map-write"), "safety", nil, tNot(tEq(m.S, "0")))
 	k := fx.mapKeyTerm(st, kv)
 	pk, nk := mapKeys(mt)
@@ -753,6 +789,7 @@ func (fx *FnCtx) mapUpdate(st *State, m *Val, mt *types.Map, kv, v *Val) {
 }
 
 func (fx *FnCtx) mapDelete(st *State, m *Val, mt *types.Map, kv *Val) {
+	fx.guardedMapOp(st, m, true)
 	k := fx.mapKeyTerm(st, kv)
 	pk, nk := mapKeys(mt)
 	fx.checkFrameStore(st, &Loc{Mem: true, Ref: m.S, Idx: k, Root: "map:" + typeKey(mt), T: mt.Elem()})
@@ -766,6 +803,7 @@ func (fx *FnCtx) mapDelete(st *State, m *Val, mt *types.Map, kv *Val) {
 
 func (fx *FnCtx) rangeInit(st *State, x *ssa.Range) {
 	m := st.val(x.X)
+	fx.guardedMapOp(st, m, false)
 	id := st.alloc()
 	it := &iterInfo{m: m, id: id}
 	if mt, ok := x.X.Type().Underlying().(*types.Map); ok {
